@@ -7,6 +7,7 @@ package ice
 
 import (
 	"context"
+	"fmt"
 	"net"
 	"net/netip"
 
@@ -38,4 +39,17 @@ func VerifNewActiveTCPConn(
 	log logging.LeveledLogger,
 ) net.PacketConn {
 	return newActiveTCPConn(ctx, localAddress, remoteAddress, log)
+}
+
+// VerifTCPPacketConnID identifies the tcpPacketConn behind a packet connection
+// returned by TCPMuxDefault.GetConnByUfrag ("" for anything else), so that a
+// harness can tell whether two handles share one underlying connection.
+func VerifTCPPacketConnID(pc net.PacketConn) string {
+	if s, ok := pc.(*sharedPacketConn); ok {
+		if t, ok := s.underlying.(*tcpPacketConn); ok {
+			return fmt.Sprintf("%p", t)
+		}
+	}
+
+	return ""
 }
